@@ -31,6 +31,8 @@ structure RtOpts where
   indirect : Bool := false
   zeroLen : Bool := false
   packed : Bool := false
+  /-- the parser has an `end()` function (EOF support) -/
+  eof : Bool := false
   deriving Repr, Inhabited
 
 structure HookCall where
@@ -281,10 +283,17 @@ def RtCtx.feedFrom (c : RtCtx) : Nat → CState → List Nat → Nat → CState 
       | .ret code st adv => ({ σ' with state := st }, code, pos + adv)
       | .yielded code st adv => ({ σ' with state := st }, "YIELD_" ++ code, pos + adv)
 
+/-- What the first line of `feed` answers for an empty chunk (mirror of the prologue emitted by
+    `_generate_feed_implementation`): FAIL in the generic fail state; when that state is not in the
+    table and the parser has an `end()`, FAIL in the index just past the table, where a failing
+    `end()` leaves the state (`Machine.failTarget`). -/
+def RtCtx.emptyFails (c : RtCtx) (s : Int) : Bool :=
+  c.M.isFailState s || (c.M.failIdx.isNone && c.ro.eof && s == (c.M.states.size : Int))
+
 def RtCtx.feed (c : RtCtx) (σ : CState) (chunk : List Nat) (pos : Nat) : CState × String × Nat :=
   let rest := chunk.drop pos
   -- an empty chunk changes nothing: OK — except that a parser that has failed keeps saying so
-  if c.needsEndCheck && rest.isEmpty then (σ, if c.M.isFailState σ.state then "FAIL" else "OK", pos)
+  if c.needsEndCheck && rest.isEmpty then (σ, if c.emptyFails σ.state then "FAIL" else "OK", pos)
   else c.feedFrom (rest.length + 2) σ rest pos
 
 def RtCtx.endCall (c : RtCtx) (σ : CState) : CState × String :=
@@ -507,6 +516,15 @@ def Machine.endFailOK (M : Machine) (o : SemOpts) : Bool :=
     (M.call o s symEnd).paths.all fun p =>
       match p.2 with
       | .ret code st _ => code != "FAIL" || decide (st < 0) || decide (st.toNat ≥ M.states.size) || (M.st st.toNat).kind == .fail
+      | _ => true
+
+/-- Sharper per-machine check: every FAIL that `end()` can report from a state of the table leaves
+    exactly `failTarget` behind — the index the prologue of `feed` tests for an empty chunk. -/
+def Machine.endFailExact (M : Machine) (o : SemOpts) : Bool :=
+  (List.range M.states.size).all fun s =>
+    (M.call o s symEnd).paths.all fun p =>
+      match p.2 with
+      | .ret code st _ => code != "FAIL" || st == M.failTarget
       | _ => true
 
 end Nmfu
